@@ -29,6 +29,7 @@ Definition sjob_eqb (a b : sjob) : bool :=
   N.eqb (s_name a) (s_name b) && jstate_eqb (s_state a) (s_state b) && set_eqb (s_blocked a) (s_blocked b).
 Definition cluster_eqb (a b : cluster) : bool :=
   option_eqb N.eqb (c_submitter a) (c_submitter b) && Bool.eqb (c_complete a) (c_complete b) &&
+  Bool.eqb (c_canceled a) (c_canceled b) &&
   Z.eqb (c_num a) (c_num b) && Z.eqb (c_submitted a) (c_submitted b) && Z.eqb (c_completed a) (c_completed b) &&
   list_eqb (prod_eqb N.eqb N.eqb) (c_groups a) (c_groups b) && list_eqb sjob_eqb (c_jobs a) (c_jobs b).
 (* events directory: only "exists" and "is empty" are observed *)
@@ -53,6 +54,14 @@ Definition helpers (c : (bool * bool * bool) * list row * list N * list cjob) :=
     | ClAssert _ _ _ => None
     end
   end.
+Definition closure_only (c : list cjob * list N) :=
+  match closure (fst c) (snd c) with
+  | ClOk (s, d) => Some (s, map (fun j => new_blockers d (cj_name j)) (fst c), map fst d)
+  | ClAssert _ _ _ => None
+  end.
+Definition closure_only_eqb (a b : option (list N * list (list N) * list N)) :=
+  option_eqb (fun x y => match x, y with (r1, b1, k1), (r2, b2, k2) =>
+     set_eqb r1 r2 && list_eqb set_eqb b1 b2 && set_eqb k1 k2 end) a b.
 Definition helpers_eqb (a b : option (list N * list N * list (list N) * list N)) :=
   option_eqb (fun x y => match x, y with (s1, r1, b1, k1), (s2, r2, b2, k2) =>
      set_eqb s1 s2 && set_eqb r1 r2 && list_eqb set_eqb b1 b2 && set_eqb k1 k2 end) a b.
@@ -112,6 +121,7 @@ class Enc:
                       for n, st, bl in snap["jobs"]])
         groups = clist([f"({cN(self.g.get(g, 99))}, {cN(p)})" for g, p in snap["groups"]])
         return (f"{{| c_submitter := {self.submitter(sub)}; c_complete := {cbool(snap['is_complete'])}; "
+                f"c_canceled := {cbool(snap['is_canceled'])}; "
                 f"c_num := {cZ(snap['num_jobs'])}; c_submitted := {cZ(snap['submitted_jobs'])}; "
                 f"c_completed := {cZ(snap['completed_jobs'])}; c_groups := {groups}; c_jobs := {jobs} |}}")
 
@@ -187,8 +197,12 @@ def gen_scenario(rng, max_jobs, shape=None):
             r = rng.random()
             seq.append("die" if r < 0.10 else (rng.choice([1, 2, 7]) if r < 0.35 else 0))
         oc[x] = seq
-    return {"jobs": jobs, "groups": groups, "max_nodes": rng.choice([None, None, 1, 2]), "outcomes": oc,
-            "shape": shape, "reports": reports}
+    sc = {"jobs": jobs, "groups": groups, "max_nodes": rng.choice([None, None, 1, 2]), "outcomes": oc,
+          "shape": shape, "reports": reports}
+    if rng.random() < 0.12:
+        sc["cancel_after_first_batch"] = True      # the user runs cancel-jobs after the first batch
+        sc["shape"] = shape + "+user-canceled"
+    return sc
 
 
 def directed_scenarios():
@@ -214,6 +228,19 @@ def directed_scenarios():
         "groups": gr, "max_nodes": None,
         "outcomes": {"j1": [1, 0, 0, 0], "j2": [0, 0, 0, 0], "j3": [0, 0, 0, 0], "j4": ["die", 0, 0, 0], "j5": [0, 0, 0, 0],
                      "j6": [0, 0, 0, 0], "j7": [0, 0, 0, 0]}, "shape": "all-kinds", "reports": True})
+    # a submission canceled by the user (cancel-jobs) after its first batch, then completed: resubmit-jobs must run
+    # the selected jobs again (fixed defect `resubmit-on-canceled-submission-erases-and-runs-nothing`)
+    g1 = [{"name": "g0", "size": 1, "try": True, "reports": False}]
+    out.append({"jobs": [{"name": f"j{i}", "deps": [], "cancel": False, "group": "g0", "est": 1} for i in (1, 2, 3)],
+                "groups": g1, "max_nodes": 1, "outcomes": {"j1": [1, 0, 0, 0], "j2": [0, 0, 0, 0], "j3": [0, 0, 0, 0]},
+                "shape": "user-canceled", "reports": False, "cancel_after_first_batch": True, "first_flags": (True, False, False)})
+    out.append({"jobs": [{"name": "j1", "deps": [], "cancel": False, "group": "g0", "est": 1},
+                         {"name": "j2", "deps": ["j1"], "cancel": True, "group": "g0", "est": 1},
+                         {"name": "j3", "deps": ["j2"], "cancel": False, "group": "g0", "est": 1},
+                         {"name": "j4", "deps": [], "cancel": False, "group": "g0", "est": 1}],
+                "groups": [{"name": "g0", "size": 2, "try": False, "reports": True}], "max_nodes": 1,
+                "outcomes": {"j1": [0, 0, 0, 0], "j2": [0, 0, 0, 0], "j3": [0, 0, 0, 0], "j4": [2, 0, 0, 0]},
+                "shape": "user-canceled", "reports": True, "cancel_after_first_batch": True, "first_flags": (True, True, False)})
     return out
 
 
@@ -295,6 +322,8 @@ class Ctx:
         self.helpers_cmp = core.CoqCompare("c13_helpers", IMPORTS, "helpers", "helpers_eqb",
                                            "(bool * bool * bool) * list row * list N * list cjob",
                                            "option (list N * list N * list (list N) * list N)", shard=120, prelude=PRELUDE)
+        self.closure_cmp = core.CoqCompare("c13_closure", IMPORTS, "closure_only", "closure_only_eqb", "list cjob * list N",
+                                           "option (list N * list (list N) * list N)", shard=400, prelude=PRELUDE)
         self.clear_cmp = core.CoqCompare("c13_clear", IMPORTS, "fun c => clear_results (fst c) (snd c)", "list_eqb row_eqb",
                                          "list row * list N", "list row", shard=200, prelude=PRELUDE)
         self.cmd_cmp = core.CoqCompare(
@@ -392,6 +421,70 @@ def clear_level(ctx, enc, out, snap, rng, tag):
                            "jobs_to_resubmit": sorted(sub), "rows_after": after, "expected_(name,rc,status,exec,ctime)": want})
 
 
+def closure_small_scope(ctx, tmp, rng):
+    """The real _update_with_blocking_jobs on EVERY dependency relation over 1..3 jobs (self-loops and cycles
+    included: check_job_dependencies does not reject them) x every selected subset, plus random relations on
+    4-6 jobs.  Only config.json is needed.  quick: all of n<=2, every 7th relation of n=3."""
+    import itertools
+    import jade.cli.resubmit_jobs as rs
+    from harness import jadeenv
+    chk = ctx.chk
+    quick = chk.tier == "quick"
+    d_ = os.path.join(tmp, "small")
+    os.makedirs(d_, exist_ok=True)
+    todo = []
+    for n in (1, 2, 3):
+        names = [f"j{i}" for i in range(1, n + 1)]
+        pairs = [(a, b) for a in names for b in names]
+        step = 7 if (quick and n == 3) else 1
+        for mask in range(0, 2 ** len(pairs), step):
+            deps = {x: [] for x in names}
+            for k, (a, b) in enumerate(pairs):
+                if mask >> k & 1:
+                    deps[a].append(b)
+            todo.append((names, deps, None))
+    for _ in range(60 if quick else 2500):
+        n = rng.randint(4, 6)
+        names = [f"j{i}" for i in range(1, n + 1)]
+        p = rng.choice([0.1, 0.2, 0.4])
+        deps = {x: [y for y in names if rng.random() < p] for x in names}
+        todo.append((names, deps, 3 if quick else 6))
+    ctx.dist["small_scope_relations"] = len(todo)
+    for names, deps, nsel in todo:
+        enc = Enc(names, ["g"])
+        sc = {"jobs": [{"name": x, "deps": deps[x], "group": "g"} for x in names], "groups": [{"name": "g"}]}
+        jadeenv.make_config(sc).dump(os.path.join(d_, "config.json"))
+        cfgjobs = [(x, sorted(deps[x])) for x in names]
+        if nsel is None:
+            sels = [set(c) for r in range(len(names) + 1) for c in itertools.combinations(names, r)]
+        else:
+            sels = [set(x for x in names if rng.random() < 0.3) for _ in range(nsel)]
+        for sel0 in sels:
+            sel = set(sel0)
+            try:
+                d = rs._update_with_blocking_jobs(sel, d_)
+                exp = ("(Some (" + enc.names(sorted(sel)) + ", " + clist([enc.names(sorted(d.get(x, set()))) for x in names]) +
+                       ", " + enc.names(sorted(d)) + "))")
+                want = ref_closure(cfgjobs, sel0)
+                if sel != want:
+                    chk.violation("closure-not-least", "rerun set is not the selected jobs plus their transitive dependents",
+                                  {"component": "_update_with_blocking_jobs", "config_jobs": cfgjobs, "selected": sorted(sel0),
+                                   "impl": sorted(sel), "expected": sorted(want)})
+                for x in sel:
+                    if set(d.get(x, set())) != set(deps[x]) & sel:
+                        chk.violation("blockers-not-intersection",
+                                      "updated blockers of a rerun job differ from (configured blockers) & (rerun set)",
+                                      {"component": "_update_with_blocking_jobs", "config_jobs": cfgjobs, "selected": sorted(sel0),
+                                       "job": x, "impl": sorted(d.get(x, set())), "expected": sorted(set(deps[x]) & sel)})
+            except AssertionError as e:
+                exp = "None"
+                chk.violation("closure-assert-fires", "the assertion inside _update_with_blocking_jobs fired on a legal configuration",
+                              {"component": "_update_with_blocking_jobs", "config_jobs": cfgjobs, "selected": sorted(sel0), "error": str(e)})
+            ctx.closure_cmp.add(f"({enc.config(cfgjobs)}, {enc.names(sorted(sel0))})", exp,
+                                {"config_jobs": cfgjobs, "selected": sorted(sel0), "impl": exp})
+            chk.count(("closure-small", str(cfgjobs), tuple(sorted(sel0))), nontrivial=bool(sel0))
+
+
 FAULTS = ["FNone", "FSelect", "FReset", "FPrepare", "FEvents", "FLoad", "FSubmit"]
 
 
@@ -480,7 +573,7 @@ def run_command_case(ctx, enc, world, out, flags, fault="FNone", groups=None, mu
 
     # ---- property oracles on impl
     def same_state(a, b):
-        keys = ("submitter", "is_complete", "num_jobs", "submitted_jobs", "completed_jobs", "jobs", "rows", "groups", "hpc_job_ids")
+        keys = ("submitter", "is_complete", "is_canceled", "num_jobs", "submitted_jobs", "completed_jobs", "jobs", "rows", "groups", "hpc_job_ids")
         return {k: (a[k], b[k]) for k in keys if a[k] != b[k]}
     rep = {"scenario": tag, "flags": dict(zip(("failed", "missing", "successful"), flags)), "fault": fault,
            "before": _slim(before), "after": _slim(after), "command_result": res}
@@ -510,7 +603,7 @@ def run_command_case(ctx, enc, world, out, flags, fault="FNone", groups=None, mu
 
 
 def _slim(s):
-    return {k: s[k] for k in ("submitter", "is_complete", "num_jobs", "submitted_jobs", "completed_jobs", "jobs", "rows",
+    return {k: s[k] for k in ("submitter", "is_complete", "is_canceled", "num_jobs", "submitted_jobs", "completed_jobs", "jobs", "rows",
                                "groups", "events") if k in s}
 
 
@@ -538,6 +631,8 @@ def handoff_oracles(ctx, before, handoff, flags, tag):
             probs.append(f"job {n} is not rerun but changed from {old[n]} to {(st, bl)}")
     if handoff["is_complete"]:
         probs.append("is_complete still true")
+    if handoff["is_canceled"]:
+        probs.append("is_canceled still set: every submitter round will refuse to submit the reset jobs")
     # the counters must describe the job table they are written with (status invariant)
     not_ns = sum(1 for _, st, _ in handoff["jobs"] if st != "not_submitted")
     if handoff["submitted_jobs"] != not_ns:
@@ -571,8 +666,28 @@ def rerun_oracles(ctx, world, before, after, rerun, epoch, tag):
     probs = []
     if len(launches) != len(set(launches)):
         probs.append("a job was launched twice")
-    if not set(launches) <= rerun:
-        probs.append("jobs outside the rerun set were launched: %s" % sorted(set(launches) - rerun))
+    extra = set(launches) - rerun
+    if extra:
+        # the known-finding class, and only it: on a user-canceled submission, jobs that were NOT_SUBMITTED at
+        # resubmit time with no remaining blockers (or only blockers of this same class) and that the flags
+        # did not select.  Every other launch outside the rerun closure is a violation.
+        was = {n: (st, set(bl)) for n, st, bl in before["jobs"]}
+        cls = set()
+        if before.get("is_canceled"):
+            grew = True
+            while grew:
+                grew = False
+                for n in extra - cls:
+                    st, bl = was[n]
+                    if st == "not_submitted" and bl <= cls:
+                        cls.add(n)
+                        grew = True
+        if cls:
+            chk.violation("unselected-never-submitted-jobs-launched-after-cancel",
+                          "resubmit-jobs on a user-canceled submission also launched never-submitted jobs that the flags did not select: %s" % sorted(cls),
+                          rep)
+        if extra - cls:
+            probs.append("jobs outside the rerun set were launched: %s" % sorted(extra - cls))
     canceled_now = {n for n in rerun if n in rows_after and rows_after[n][2] == "canceled"}
     notrun = rerun - set(launches) - canceled_now
     # a rerun job may legitimately not start only if it is canceled or stuck behind a rerun blocker that died again
@@ -639,6 +754,9 @@ def one_scenario(ctx, sc, tmp, idx, rng, deep):
                     if who is not None:
                         _set_submitter(o, who)
                 run_command_case(ctx, enc, world, out, rng.choice(FLAGS8), mutate=mut, tag=tag + ":incomplete")
+    if sc.get("cancel_after_first_batch"):
+        rd.run_node(world, world.pending()[0])
+        _user_cancel(world, out)
     rd.drain(world)
     ctx.dist["scenarios"] += 1
     ctx.dist["shapes"][sc["shape"]] = ctx.dist["shapes"].get(sc["shape"], 0) + 1
@@ -673,6 +791,8 @@ def one_scenario(ctx, sc, tmp, idx, rng, deep):
                     handoff_oracles(ctx, b, h, flags, tag)
         # -- the real thing: resubmit and let the batches run to completion
         flags = (True, True, False) if round_ == 0 and rng.random() < 0.5 else rng.choice(FLAGS8)
+        if round_ == 0 and sc.get("first_flags"):
+            flags = tuple(sc["first_flags"])
         epoch = world.epoch + 1
         b, h, a, res = run_command_case(ctx, enc, world, out, flags, real_submit=True, tag=tag + f":resubmit{round_}")
         rerun = handoff_oracles(ctx, b, h, flags, tag)
@@ -683,6 +803,19 @@ def one_scenario(ctx, sc, tmp, idx, rng, deep):
         after = full_snapshot(out)
         if rerun is not None:
             rerun_oracles(ctx, world, b, after, rerun, epoch, tag + f":resubmit{round_}")
+
+
+def _user_cancel(world, out):
+    """jade cancel-jobs: the real JobSubmitter.cancel_jobs (scancel + mark_canceled), then try-submit-jobs"""
+    from jade.jobs.cluster import Cluster
+    from jade.jobs.job_submitter import JobSubmitter
+    c, promoted = Cluster.deserialize(out, try_promote_to_submitter=True, deserialize_jobs=True)
+    assert promoted
+    try:
+        JobSubmitter.load(out).cancel_jobs(c)
+    finally:
+        c.demote_from_submitter()
+    rd.try_submit(world)
 
 
 def _set_submitter(out, who):
@@ -717,12 +850,13 @@ def run(chk):
     tmp = tempfile.mkdtemp(prefix="verif_c13_")
     quick = chk.tier == "quick"
     n_deep, n_light = (6, 30) if quick else (60, 500)
-    t0 = time.time()
-    budget = 55 if quick else 800
+    budget = 45 if quick else 800
     try:
         with rd.patched(), open(os.devnull, "w") as devnull:
             import contextlib
             with contextlib.redirect_stdout(devnull), contextlib.redirect_stderr(devnull):
+                closure_small_scope(ctx, tmp, rng)
+                t0 = time.time()
                 scs = directed_scenarios()
                 idx = 0
                 for sc in scs:
@@ -739,7 +873,8 @@ def run(chk):
                     idx += 1
     finally:
         shutil.rmtree(tmp, ignore_errors=True)
-    for cmp_, what in ((ctx.helpers_cmp, "selection + closure + updated blockers (Resubmit.selected/closure vs _get_jobs_to_resubmit/_update_with_blocking_jobs)"),
+    for cmp_, what in ((ctx.closure_cmp, "Resubmit.closure vs _update_with_blocking_jobs on all dependency relations over <= 3 jobs (cycles included) + random 4-6 jobs"),
+                       (ctx.helpers_cmp, "selection + closure + updated blockers (Resubmit.selected/closure vs _get_jobs_to_resubmit/_update_with_blocking_jobs)"),
                        (ctx.clear_cmp, "Resubmit.clear_results vs ResultsAggregator.clear_results_for_resubmission"),
                        (ctx.cmd_cmp, "Resubmit.resubmit vs the resubmit_jobs command (outcome + final state)")):
         try:
